@@ -336,9 +336,11 @@ func runC13(c *fw.Ctx) {
 	c.Cases("numeric-widths", 6, true, func(i int, r *rng.R) {
 		third := float32(1.0) / 3
 		src := []any{int8(-5), uint8(200), int16(-300), uint16(65535), int32(-70000), uint32(70000), int64(-9), uint64(12), uint(3), float32(0.1), float32(3.14), third, float32(1.5),
-			map[string]any{"f": float32(0.1), "i": int8(7), "l": []any{float32(16777217), uint16(1)}}}
+			'A', int32(0x4e2d), uint8('z'), int16(48), rune(0x1F600), int32(32), uint32('~'), int64(10), uint16(0x2028), // numbers that are also code points
+			map[string]any{"f": float32(0.1), "i": int8(7), "l": []any{float32(16777217), uint16(1), 'x'}}}
 		want := []any{-5, 200, -300, 65535, -70000, 70000, -9, 12, 3, float64(float32(0.1)), float64(float32(3.14)), float64(third), 1.5,
-			map[string]any{"f": float64(float32(0.1)), "i": 7, "l": []any{float64(float32(16777217)), 1}}}
+			65, 0x4e2d, 122, 48, 0x1F600, 32, 126, 10, 0x2028,
+			map[string]any{"f": float64(float32(0.1)), "i": 7, "l": []any{float64(float32(16777217)), 1, 120}}}
 		in := func() string { return fmt.Sprintf("native source with sized numbers %#v", src) }
 		guard(c, in, func() {
 			c.Distinct(fmt.Sprintf("numeric widths %d", i))
